@@ -6,18 +6,21 @@
     data ([item]: a line, or a [subgraph NAME { ... }] block) in the order the Rust code writes
     them, and [render_doc] turns them into the exact bytes (indentation = one tab per nesting
     level plus one, as [indentation] in the Rust code).  [of_dfa] / [of_regex] are byte-for-byte
-    what the pinned code writes (tie T1 against the DFADOT / REGEXDOT stages).
+    what the current code writes (tie T1 against the DFADOT / REGEXDOT stages).
 
-    The printers are parameterised by a [variant] so that the *pinned* code and the code *after
-    the proposed patches* are two instances of one definition:
+    The printers are parameterised by a [variant] so that the code *as it is now* ([current]), the
+    code *before commit 0e66d33* ([old]: the refuted one, kept for the witnesses) and the code with
+    the remaining optional hunk applied ([patched]) are instances of one definition:
       - [v_escape]     how the label of a transition is made safe for a DOT quoted string
-                       (pinned: only double quotes are escaped, after [{:?}] has already escaped
-                       the description; patched: backslashes, then double quotes);
+                       (old: only double quotes are escaped, after [{:?}] has already escaped the
+                       description; current: backslashes, then double quotes);
       - [v_subacc]     whether the accepting states of a within-word automaton get [+ array_start]
-                       in the dashed edges that leave a cluster (pinned: no);
-      - [v_dead0]      whether [get_all_states] inserts state 0 unconditionally (pinned: yes);
+                       in the dashed edges that leave a cluster (old: no; current: yes);
+      - [v_dead0]      whether the regular states come from [get_all_states], which inserts state 0
+                       unconditionally (old and current: yes; patched: no -- latent, see
+                       [known_phantom]);
       - [v_rx_escape]  how literal / description / nonterminal name are written into a label of
-                       the --regex file (pinned: verbatim; patched: as [v_escape]).
+                       the --regex file (old: verbatim; current: as [v_escape]).
 
     Rust's [{:?}] on [str] is modelled for ASCII exactly (backslash escapes for quote, backslash,
     NUL, tab, CR, LF; [\u{..}] for the other control characters and DEL).  Bytes >= 128 are
@@ -84,7 +87,7 @@ Definition diagnostic_display_input (i : inp) : outcome unit string :=
   | IStar => Ok "*"
   | ICmd c _ => Ok ("{{{ " +++ c +++ " }}}")
   | ICompadd c _ => Ok ("{{{ " +++ c +++ " }}}compadd")
-  | ISub _ _ => Panic "diagnostic_display_input: unreachable (Subword)"
+  | ISub _ _ => Ok "<subword>"
   end.
 
 (** ** The lines both printers write *)
@@ -140,7 +143,8 @@ Record variant := mkvariant {
   v_rx_escape : string -> string
 }.
 
-Definition pinned : variant := mkvariant escape_quotes false true (fun s => s).
+Definition old : variant := mkvariant escape_quotes false true (fun s => s).
+Definition current : variant := mkvariant escape_dot true true escape_dot.
 Definition patched : variant := mkvariant escape_dot true false escape_dot.
 
 (** RoaringBitmap: a strictly increasing list *)
@@ -264,8 +268,8 @@ Definition dfa_items (v : variant) (base : N) (c : cdfa) : outcome unit (list it
 Definition of_dfa_with (v : variant) (base : N) (c : cdfa) : outcome unit string :=
   do items <- dfa_items v base c; Ok (render_doc "dfa" items).
 
-(** [DFA::to_dot] as pinned *)
-Definition of_dfa (base : N) (c : cdfa) : outcome unit string := of_dfa_with pinned base c.
+(** [DFA::to_dot] as it is now *)
+Definition of_dfa (base : N) (c : cdfa) : outcome unit string := of_dfa_with current base c.
 
 (** ** Regex side: arena and inputs as cg-dump prints them ([(regex (root i) .. (inputs ..) (nodes ..))]) *)
 Inductive rinput :=
@@ -386,14 +390,16 @@ Definition regex_items (v : variant) (pool : rpool) (r : regex) : outcome unit (
 Definition of_regex_with (v : variant) (pool : rpool) (r : regex) : outcome unit string :=
   do items <- regex_items v pool r; Ok (render_doc "rx" items).
 
-(** [Regex::to_dot] as pinned *)
-Definition of_regex (pool : rpool) (r : regex) : outcome unit string := of_regex_with pinned pool r.
+(** [Regex::to_dot] as it is now *)
+Definition of_regex (pool : rpool) (r : regex) : outcome unit string := of_regex_with current pool r.
 
-(** ** The known-finding classes of C16 (decidable; extracted: they are the check's classifier)
+(** ** The finding classes of C16 (decidable; extracted).  The first, second and fourth were fixed by
+    commit 0e66d33 and now only describe where the [old] variant is refuted; [known_phantom] is the
+    one class left for the current code, and is empty on what [minimize] returns ([starts_at_zero]).
 
     [known_labels]: a transition whose display text contains a backslash (a backslash in a literal
     or a command, or a description that [{:?}] has to escape: double quote, backslash, control
-    character).  The pinned code writes such a text with only its double quotes escaped, so the
+    character).  The old code writes such a text with only its double quotes escaped, so the
     label renders wrongly or -- backslash directly before a double quote -- the quoted string ends
     early and the file is not DOT at all.
     [known_subacc]: numbering base 1 (fish, zsh) and a transition on a within-word automaton that
@@ -435,8 +441,13 @@ Definition phantom_zero (d : dfa) : bool :=
 Definition known_phantom (c : cdfa) : bool :=
   phantom_zero (c_main c) || existsb phantom_zero (used_subs c).
 
-Definition known_C16 (base : N) (c : cdfa) : bool :=
+Definition known_C16_old (base : N) (c : cdfa) : bool :=
   known_labels c || known_subacc base c || known_phantom c.
+
+(** what [minimize] guarantees ([renumber_states] gives the start state number 0), checked on every
+    run on Rust's MIN automaton: then state 0 is a state and the class [known_phantom] is empty *)
+Definition starts_at_zero (c : cdfa) : bool :=
+  (d_start (c_main c) =? 0) && forallb (fun sd => d_start sd =? 0) (used_subs c).
 
 Definition needs_dot_escape (s : string) : bool :=
   contains_char """"%char s || contains_char "\"%char s.
